@@ -1,0 +1,56 @@
+//go:build verif && !frps
+
+package client
+
+import (
+	"io"
+	"net/http"
+
+	"github.com/fatedier/frp/verif"
+)
+
+const evAuth = "client.HTTPProxy).Auth"
+
+// http_proxy plugin: a request (plain or CONNECT, whichever entry point it
+// arrives through) is forwarded / tunnelled only if Auth accepted it.
+//
+//verif:contract (*~/pkg/plugin/client.HTTPProxy).ServeHTTP
+//verif:props C07
+func verif_HTTPProxy_ServeHTTP(hp *HTTPProxy, rw http.ResponseWriter, req *http.Request) {
+	verif.ResetEvents()
+	hp.ServeHTTP(rw, req)
+	if verif.Called("HTTPProxy).ConnectHandler") || verif.Called("HTTPProxy).HTTPHandler") {
+		verif.Ensures(verif.Called(evAuth) && verif.RetBool(evAuth, 0), "served_only_after_credentials_accepted")
+		verif.Ensures(verif.CalledBefore(evAuth, "HTTPProxy).ConnectHandler") || verif.CalledBefore(evAuth, "HTTPProxy).HTTPHandler"), "checked_before_serving")
+	} else {
+		verif.Ensures(verif.Called("ResponseWriter).WriteHeader"), "refusal_is_answered")
+	}
+}
+
+//verif:contract (*~/pkg/plugin/client.HTTPProxy).handleConnectReq
+//verif:props C07
+func verif_HTTPProxy_handleConnectReq(hp *HTTPProxy, req *http.Request, rwc io.ReadWriteCloser) {
+	verif.ResetEvents()
+	hp.handleConnectReq(req, rwc)
+	if verif.Called("net.Dial") {
+		verif.Ensures(verif.Called(evAuth) && verif.RetBool(evAuth, 0) && verif.CalledBefore(evAuth, "net.Dial"), "backend_dialled_only_after_credentials_accepted")
+	}
+	verif.Ensures(verif.Called("io.Closer).Close"), "connection_closed_at_the_end")
+}
+
+// Auth: without configured credentials everything passes; otherwise only the
+// exact user and password pass.
+//
+//verif:contract (*~/pkg/plugin/client.HTTPProxy).Auth
+//verif:props C07
+func verif_HTTPProxy_Auth(hp *HTTPProxy, req *http.Request) {
+	u, p := hp.opts.HTTPUser, hp.opts.HTTPPassword
+	verif.ResetEvents()
+	ok := hp.Auth(req)
+	if u == "" && p == "" {
+		verif.Ensures(ok, "no_credentials_configured_passes")
+	} else if ok {
+		pair := verif.Ret[[]string]("strings.SplitN", 0)
+		verif.Ensures(verif.CallCount("strings.SplitN") == 2 && len(pair) == 2 && pair[0] == u && pair[1] == p, "accepted_only_with_exact_user_and_password")
+	}
+}
